@@ -308,6 +308,66 @@ def slot_products():
                 yield "C02:index:%s:%s:%s" % (pl, sn, fn), src
 
 
+# ------------------------------------------------------------------------------------------------
+# identifier spellings: Python NFKC-normalises identifiers AFTER tokenising, so a name written with
+# compatibility characters can become a KEYWORD / constant name in the tree (`\U0001d422\U0001d427` -> Name('in')),
+# which no unparser can write back; other spellings are merely non-ASCII.  Every position that
+# holds an identifier x every spelling x placement (seeded change c02f: the result of the fallback
+# unparser was returned unchecked).
+# ------------------------------------------------------------------------------------------------
+def _bold(word):
+    return "".join(chr(0x1D41A + ord(c) - 97) if "a" <= c <= "z" else chr(0x1D400 + ord(c) - 65) if "A" <= c <= "Z" else c for c in word)
+
+
+IDENT_SPELLINGS = {
+    "kw_in": _bold("in"), "kw_if": _bold("if"), "kw_del": _bold("del"), "kw_is": _bold("is"), "kw_or": _bold("or"),
+    "kw_lambda": _bold("lambda"), "kw_not": _bold("not"), "kw_while": _bold("while"), "kw_class": _bold("class"),
+    "kw_partial": "i" + _bold("f"), "soft_match": _bold("match"), "soft_type": _bold("type"),
+    "plain_bold": _bold("zq"), "fullwidth": "\uff41\uff42", "ligature": "\ufb01x", "micro": "\u00b5", "kelvin": "\u212a", "greek": "\u03bb\u03b1",
+    "ascii": "zq",
+    # (not included: spellings of None / True / False / __debug__ -- Name('None') is re-read as Constant(None), the same
+    # value; the tree-equality side oracle of this check would flag a difference the property does not speak about)
+}
+IDENT_SLOTS = {
+    "assign": "N = 1\nprint(N)\n",
+    "attr_load": "v = a.N\n",
+    "attr_store": "a.N = 1\n",
+    "param": "def h(N=1):\n    return N\n",
+    "kwonly_param": "def h(*, N=1):\n    return N\n",
+    "vararg": "def h(*N):\n    return N\n",
+    "lambda_param": "g = lambda N: N\n",
+    "call_kw": "f(N=1)\n",
+    "class_kw": "class A(N=1):\n    pass\n",
+    "def_name": "def N():\n    pass\n",
+    "class_name": "class N:\n    pass\n",
+    "import_as": "import os as N\n",
+    "from_import_as": "from os import sep as N\n",
+    "import_name": "import N\n",
+    "from_module": "from N import x\n",
+    "from_name": "from os import N\n",
+    "for_target": "for N in r:\n    pass\n",
+    "for_target_break": "for N in r:\n    if a:\n        break\n",
+    "comp_target": "l = [N for N in r]\n",
+    "walrus": "(N := 1)\n",
+    "global_decl": "def h():\n    global N\n    N = 1\n",
+    "nonlocal_decl": "def h():\n    N = 0\n    def k():\n        nonlocal N\n        N = 1\n    k()\n",
+    "captured": "def h():\n    N = 0\n    def k():\n        return N\n    return k()\n",
+    "aug": "N += 1\n",
+    "destructure": "N, *b = r\n",
+    "method_name": "class A:\n    def N(self):\n        return 1\n",
+    "class_attr": "class A:\n    N = 2\n",
+    "fstring_field": "s = f'{N}'\n",
+    "load_in_loop": "while a:\n    x = N\n    break\n",
+}
+
+
+def ident_products():
+    for pl in SLOT_PLACEMENTS:
+        for sn, s in IDENT_SLOTS.items():
+            for kn, k in IDENT_SPELLINGS.items():
+                yield "C02:ident:%s:%s:%s" % (pl, sn, kn), _place(s.replace("N", k), pl)
+
+
 # scripts that PARSE but that CPython refuses to COMPILE: conversion must either refuse them or
 # still return one well-formed expression (it used to return text that is not an expression)
 COMPILE_REFUSED = {
